@@ -116,6 +116,7 @@ inductive Label where
   | start (t : Nat)
   | silentEnd (t : Nat)                    -- silent: a task cancelled before its first step ends cancelled without running
   | enter (t b : Nat) (isAsync : Bool)
+  | enterfail (t b : Nat)                  -- a pending cancellation delivered at a suspension point of `__aenter__` before anything is entered
   | spawn (t c : Nat) (viaGroup : Bool)    -- `ctx.spawn` (true) / plain `loop.create_task` (false)
   | spawnfail (t c : Nat)                  -- `ctx.spawn` raised RuntimeError
   | await (t g : Nat)
@@ -161,15 +162,29 @@ def failGroup (s : Sys) (g : Nat) : Sys :=
     setTask s2 G.owner (requestParentCancel (s2.tasks G.owner))
   else s
 
+/-- `uncancel()` of the parent-cancel, if this group issued one ("we *must* call uncancel()") -/
+def uncancelled (T : Task) (G : Group) : Nat := if G.pcr then T.cancelReq - 1 else T.cancelReq
+
+/-- the owner's task record when `TaskGroup.__aexit__` starts: suspended iff members are still registered -/
+def exitTask (T : Task) (G : Group) (b : Nat) : Task :=
+  { T with cancelReq := uncancelled T G, status := .exitWait b (!G.members.isEmpty) }
+
+/-- the group's record when `__aexit__` starts: a cancelled body is remembered for re-raising unless it was the
+group's own parent-cancel and nobody else asked -/
+def exitGroup (T : Task) (G : Group) (o : Outcome) : Group :=
+  { G with exiting := true, bodyOut := o,
+           propagate := (o == .cancelled) && !(G.pcr && uncancelled T G == 0) }
+
 /-- `TaskGroup.__aexit__` up to the wait loop, run by the owner `t` whose body ended with `o` -/
 def beginExit (s : Sys) (t b : Nat) (o : Outcome) : Sys :=
   let T := s.tasks t
   let G := s.groups b
-  let creq := if G.pcr then T.cancelReq - 1 else T.cancelReq            -- "we *must* call uncancel()"
-  let prop := (o == .cancelled) && !(G.pcr && creq == 0)
-  let s1 := setGroup (setTask s t { T with cancelReq := creq, status := .exitWait b (!G.members.isEmpty) }) b
-              { G with exiting := true, bodyOut := o, propagate := prop }
+  let s1 := setGroup (setTask s t (exitTask T G b)) b (exitGroup T G o)
   if o != .ok && !G.aborting then abort s1 b else s1
+
+/-- CancelledError caught in the wait loop: remembered and the group aborted, unless it is aborting already -/
+def deliverGroup (s : Sys) (b : Nat) : Sys :=
+  if (s.groups b).aborting then s else abort (setGroup s b { s.groups b with propagate := true }) b
 
 /-- what `ScopeContext.__aexit__` lets out of the block once the group has finished:
 `TaskGroup` raises the parked CancelledError unless it has member errors (those have priority and come as an
@@ -198,6 +213,11 @@ def step (s : Sys) : Label → Option Sys
         if (s.groups b).entered then none
         else some (setGroup (setTask s t { T with frames := ⟨b, true⟩ :: T.frames }) b { owner := t, entered := true })
       else some (setTask s t { T with frames := ⟨b, false⟩ :: T.frames })
+    else none
+  | .enterfail t _ =>
+    let T := s.tasks t
+    if T.status = .body ∧ T.mustCancel = true then
+      some (setTask s t { T with status := .unwinding .cancelled, mustCancel := false })
     else none
   | .spawn t c viaGroup =>
     let T := s.tasks t
@@ -260,8 +280,12 @@ def step (s : Sys) : Label → Option Sys
           let G := s.groups b
           match T.status with
           | .exitWait b' susp =>
-            if b' = b ∧ G.members.isEmpty ∧ !(susp && T.mustCancel) ∧ exitResult G = o then
-              some (setGroup (setTask s t { T with frames := rest, status := afterBlock o }) b { G with finished := true })
+            -- `viaGroup`: what the group exit lets out; otherwise a cancellation still pending on the task may be
+            -- delivered at a later suspension point of the exit (none in the pinned code; an extra `await` is harmless)
+            let viaGroup : Bool := exitResult G == o
+            if b' = b ∧ G.members.isEmpty ∧ !(susp && T.mustCancel) ∧ (viaGroup || (T.mustCancel && o == .cancelled)) then
+              some (setTask (setGroup s b { G with finished := true }) t
+                { T with frames := rest, status := afterBlock o, mustCancel := viaGroup && T.mustCancel })
             else none
           | _ => none
         else
@@ -273,9 +297,8 @@ def step (s : Sys) : Label → Option Sys
     match T.status with
     | .exitWait b true =>
       if T.mustCancel then
-        let G := s.groups b
-        let s1 := if G.aborting then s else abort (setGroup s b { G with propagate := true }) b
-        some (setTask s1 t { s1.tasks t with mustCancel := false, status := .exitWait b (!G.members.isEmpty) })
+        let s1 := deliverGroup s b
+        some (setTask s1 t { s1.tasks t with mustCancel := false, status := .exitWait b (!(s.groups b).members.isEmpty) })
       else none
     | _ => none
   | .reap c =>
